@@ -144,7 +144,7 @@ impl Prop for C19 {
         "case = (T in {Poly0, Poly3, Poly8, PolyN}; byte string). Byte strings are (a) CONSTRUCTED with the wire layout Vec<f64>::arbitrary reads (continuation byte, 8 little-endian bytes per element) so that they decode to chosen end lists — normal random ends in any order incl. descending, many duplicates, empty list, lists containing NaN / ±inf / subnormal / ±0 ends — followed by random piece bytes, and truncated at a random position (so the input runs out while ends or pieces are read), or (b) uniformly random bytes of length 0..200. Oracle: the call never panics; Err is always acceptable; Ok(pw) must have >=1 segment, every end is_normal(), ends non-decreasing; then a tag copy (same ends, Poly0(i)) is evaluated over its whole alphabet incl. 5 NaN payloads directly, through one PiecewiseEvaluator (alphabet ascending, then descending, then interleaved extremes) and through evaluate_v (ascending): no panic, and for non-NaN arguments the same segment index from all three and from the selection model; the original value is evaluated the same three ways for panic-freedom. Non-trivial: Ok with >=2 segments.".into()
     }
     fn cases(&self, tier: Tier) -> u64 {
-        tier.pick(150_000, 5_000_000)
+        tier.pick(1_000_000, 10_000_000)
     }
     fn strategy(&self, _tier: Tier) -> BoxedStrategy<Case> {
         let normal = prop_oneof![3 => gen::scaled(-8, 8), 1 => gen::scaled(-1022, 1023), 1 => gen::from_table(&[1.0, -1.0, 2.0, f64::MAX, -f64::MAX, f64::MIN_POSITIVE, -f64::MIN_POSITIVE, 1.0000000000000002])];
